@@ -190,6 +190,23 @@ func c11ReservedExprs() []string {
 }
 
 func c11Logs(d *adoc.Doc, ctx *adoc.Node, e refExpr, got, want Outcome, env EnvSpec) string {
+	// "a variable evaluates to exactly the bound value": a bare reference to a
+	// node-set variable returns the bound sequence, in the bound order
+	if vr, ok := e.AST.(refxp.VarRef); ok && got.Type == "node-set" {
+		for _, v := range env.Vars {
+			if v.Type == "node-set" && v.Local == vr.Local && vr.Prefix == "" && v.Space == "" {
+				var ids []int
+				for _, p := range v.Nodes {
+					if n := d.Resolve(p); n != nil {
+						ids = append(ids, n.ID)
+					}
+				}
+				if fmt.Sprint(ids) != fmt.Sprint(got.Nodes) {
+					return fmt.Sprintf("$%s is bound to the node sequence %v but evaluated to %v", v.Local, ids, got.Nodes)
+				}
+			}
+		}
+	}
 	if env.rec == nil {
 		return ""
 	}
